@@ -59,8 +59,8 @@ func VerifyDocument(ctx context.Context,
 
 	var keyFound int
 
-	for _, txEntry := range proof.VerifiableTx.Tx.Entries {
-		if bytes.Equal(txEntry.Key, encDocKey) {
+	for _, txEntry := range proof.GetVerifiableTx().GetTx().GetEntries() {
+		if bytes.Equal(txEntry.GetKey(), encDocKey) {
 			hVal := sha256.Sum256(proof.EncodedDocument)
 
 			if !bytes.Equal(hVal[:], txEntry.HValue) {
@@ -75,7 +75,17 @@ func VerifyDocument(ctx context.Context,
 		return nil, fmt.Errorf("%w: document entry was not found or it was found multiple times", store.ErrInvalidProof)
 	}
 
+	// the transaction header and the dual proof are required from here on
+	err = proof.VerifiableTx.Validate()
+	if err != nil {
+		return nil, err
+	}
+
 	voff := sql.EncLenLen + sql.EncIDLen
+
+	if len(proof.EncodedDocument) < voff {
+		return nil, fmt.Errorf("%w: the proof contains invalid document data", store.ErrInvalidProof)
+	}
 
 	// DocumentIDField
 	_, n, err := sql.DecodeValue(proof.EncodedDocument[voff:], sql.BLOBType)
@@ -88,6 +98,10 @@ func VerifyDocument(ctx context.Context,
 	}
 
 	voff += n + sql.EncIDLen
+
+	if len(proof.EncodedDocument) < voff {
+		return nil, fmt.Errorf("%w: the proof contains invalid document data", store.ErrInvalidProof)
+	}
 
 	// DocumentBLOBField
 	encodedDoc, _, err := sql.DecodeValue(proof.EncodedDocument[voff:], sql.BLOBType)
